@@ -52,7 +52,7 @@ SPEC = dict(
                'byte-reflection table built bit by bit); CRC-32/64 polynomials, data and initial values are sampled, not enumerated; '
                'ASan red zones detect over-reads past the end of a piece, reads before its start are only caught through the value',
     technique='exhaustive table sweep + structured/random message sweep with exact integer oracles, every-split-point re-feeding, '
-              'tables re-initialised over adversarial contents, exact-size heap blocks under ASan+UBSan; 2^32+37-byte messages at once vs in pieces (unsanitised)',
+              'tables re-initialised over adversarial contents, exact-size heap blocks under ASan+UBSan; 2^32+37-byte messages at once vs in pieces (unsanitised); messages containing their own running register',
     # second configuration: one message of 2^32+37 bytes per routine, unsanitised build (two passes over 4 GiB take ~10 s each way)
     configs=lambda tier: [dict(name='mt', harness=['h_mt_codec.c'], hflags=['-DVF_MT=17'], flavour='tsan', nworkers=1), dict(name='default'), dict(name='giant', harness=['h_crc_giant.c'], flavour='fast', nworkers=9),
                           dict(name='clang', libcc='clang', nworkers=3, of=6), dict(name='o2', libflavour='san-o2', libdrop=['-fno-strict-aliasing'], nworkers=3, of=6)],  # library compiled by clang: half of the cases
